@@ -276,5 +276,5 @@ func TestVerifC05Sums(t *testing.T) {
 func TestVerifC05Random(t *testing.T) {
 	vRapid(t, "C05", "c05.random",
 		"random books (<=12 recipes, depth <=4, sometimes cyclic) and logs biased to ties (exact mode: small half-integer quantities), several unknown foods, repeated dates, --maxdepth 1..6 around h_max; 26 commands each run 12 (quick) / 40 (thorough) times in one process and, for 1/50 of the cases, 3/8 times as separate processes; all runs must agree byte for byte on stdout, failure and error text; non-trivial = >=2 unresolved foods, or a quantity tie, or an element-total tie, or h_max >= N-1 with >=2 recipes, or cyclic",
-		vBudget(800, 4000), genC05, checkC05)
+		vBudget(600, 4000), genC05, checkC05)
 }
